@@ -49,6 +49,31 @@ def _random_structure(rng, with_missing_vdw):
     return Atoms(numbers=zs, positions=pos, cell=cell, pbc=pbc)
 
 
+def _sized_structure(rng, n):
+    """n atoms of two or three species (one without a vdW radius) on a jittered grid: atom counts that coincide with the
+    lengths of the element tables (a per-atom array must never be mistaken for a per-element table)"""
+    from ase import Atoms
+
+    pool = [int(rng.choice([6, 14, 29, 82])), int(rng.choice([8, 16, 34])), int(rng.choice([84, 86, 61]))]
+    zs = rng.choice(pool, n)
+    m = int(np.ceil(n ** (1 / 3)))
+    grid = np.array([[i, j, k] for i in range(m) for j in range(m) for k in range(m)], dtype=float)[:n]
+    a = float(rng.uniform(2.2, 3.4))
+    pos = grid * a + rng.normal(scale=0.15, size=(n, 3))
+    pbc = rng.integers(0, 2, 3).astype(bool)
+    return Atoms(numbers=zs, positions=pos, cell=np.eye(3) * (m * a), pbc=pbc)
+
+
+def reference_radii(ref, preset, zs):
+    """the documented resolution, computed by the harness from the documented tables (TLC re-derives it: ArrayIsResolved)"""
+    out = []
+    for z in zs:
+        cov, vdw = ref["covalent"][z - 1], ref["vdw"][z - 1]
+        v = cov if preset == "covalent" else vdw if preset == "vdw" else (vdw if vdw >= 0 else cov)
+        out.append(v)
+    return out
+
+
 def run(tier):
     import matid.geometry
     from matid.clustering import SBC
@@ -56,7 +81,7 @@ def run(tier):
     run = Run("C19", tier, "model_checking")
     d = scratch("c19")
     refp = os.path.join(d, "radii.json")
-    export_ref(refp)
+    ref = export_ref(refp)
     env = {"RADII_REF": refp}
 
     # --- model layer: exhaustive over 3 presets x 103 elements
@@ -105,6 +130,11 @@ def run(tier):
     # inputs where the radii decide which atoms stay in a cluster come first (lifted same-species adatoms, shared-anion stacks)
     crystalline.sort(key=lambda x: 0 if (x[0] == "slabads" and x[1].get("ads") == x[1]["el"]) else 1 if x[0] == "rsstack" else 2)
     crystalline = crystalline[0::2] + crystalline[1::2]
+    from ase.data import covalent_radii as _cov
+    from ase.data.vdw_alvarez import vdw_radii as _vdw
+
+    table_sizes = sorted({103, 104, 118, 119, 120, len(_cov), len(_vdw), len(_cov) - 1, len(_vdw) - 1})
+    inputs = []
     for k in range(n_eq):
         rng = rng_for("c19-equiv", k)
         if k % 2 == 0 and crystalline:
@@ -114,31 +144,44 @@ def run(tier):
         else:
             sysm = _random_structure(rng, with_missing_vdw=(k % 4 == 1))
             label = {"kind": "random", "k": k}
+        inputs.append((k, rng, sysm, label, len(sysm) <= 60, k % 2 == 0 or k % 3 == 0))
+    for n in table_sizes:
+        rng = rng_for("c19-sized", n)
+        inputs.append((1000 + n, rng, _sized_structure(rng, n), {"kind": "sized", "n": n}, True, False))
+    for k, rng, sysm, label, do_dim, do_sbc in inputs:
         zs = sysm.get_atomic_numbers()
         shared = SBC()  # one clustering object reused across the presets of this structure (history must not matter)
         for p in ["vdw", "vdw_covalent", "covalent"]:
             code_radii = matid.geometry.get_radii(p, zs)
-            if not np.all(np.isfinite(code_radii)):
-                skipped_nan += 1  # the code's own preset is NaN here; judged by (1), unsafe to run further
+            # the preset resolved for this structure's own atoms in one call: judged per element against the documented table
+            add({"ev": "resolve_many", "preset": p, "zs": [int(z) for z in zs], "vals": [enc(v) for v in code_radii], "k": k,
+                 "input": label})
+            run.count()
+            ref_enc = reference_radii(ref, p, [int(z) for z in zs])
+            if min(ref_enc) < 0:
+                skipped_nan += 1  # the documented preset itself has no value for an atom here (plain "vdw")
                 continue
+            ref_radii = np.array(ref_enc, dtype=float) / U
             thr = float(rng.choice([0.3, 0.65, 1.0, 2.0, 3.5]))
-            if len(sysm) <= 60:
-                a = _enc_dim(matid.geometry.get_dimensionality(sysm.copy(), thr, radii=p, return_clusters=True))
-                b = _enc_dim(matid.geometry.get_dimensionality(sysm.copy(), thr, radii=np.array(code_radii, dtype=float),
-                                                                return_clusters=True))
+            if do_dim:
+                try:
+                    a = _enc_dim(matid.geometry.get_dimensionality(sysm.copy(), thr, radii=p, return_clusters=True))
+                    b = _enc_dim(matid.geometry.get_dimensionality(sysm.copy(), thr, radii=ref_radii.copy(), return_clusters=True))
+                except Exception as e:
+                    a, b = {"dim": -9, "clusters": []}, {"dim": -8, "clusters": [], "raised": "%s: %s" % (type(e).__name__, str(e)[:120])}
                 add({"ev": "equiv", "what": "dimensionality", "preset": p, "zs": [int(z) for z in zs],
-                     "array": [enc(v) for v in code_radii], "with_preset": a, "with_array": b, "k": k, "thr": thr, "input": label})
+                     "array": ref_enc, "with_preset": a, "with_array": b, "k": k, "thr": thr, "input": label})
                 run.count()
                 run.nontrivial(("equiv-dim", k, p))
-            if k % 2 == 0 or k % 3 == 0:
+            if do_sbc:
                 bt = float(rng.choice([0.3, 0.65]))
                 try:
                     ca = _enc_sbc(shared.get_clusters(sysm.copy(), radii=p, bond_threshold=bt))
-                    cb = _enc_sbc(SBC().get_clusters(sysm.copy(), radii=np.array(code_radii, dtype=float), bond_threshold=bt))
+                    cb = _enc_sbc(SBC().get_clusters(sysm.copy(), radii=ref_radii.copy(), bond_threshold=bt))
                 except ValueError:
                     continue
                 add({"ev": "equiv", "what": "sbc", "preset": p, "zs": [int(z) for z in zs],
-                     "array": [enc(v) for v in code_radii], "with_preset": ca, "with_array": cb, "k": k, "input": label})
+                     "array": ref_enc, "with_preset": ca, "with_array": cb, "k": k, "input": label})
                 run.count()
                 if ca:
                     run.nontrivial(("equiv-sbc", k, p))
@@ -160,6 +203,10 @@ def run(tier):
             key = "resolve preset=%s z=%d" % (r["preset"], r["z"])
             what = "%s: get_radii(%r, Z=%d) = %s (1e-4 A), documented table gives otherwise" % (
                 clause, r["preset"], r["z"], r["val"])
+        elif r["ev"] == "resolve_many":
+            key = "resolve-many preset=%s" % r["preset"]
+            what = "%s: get_radii(%r, <the %d atoms of %s>) differs from the documented per-element table" % (
+                clause, r["preset"], len(r["zs"]), r["input"])
         elif r["ev"] == "custom":
             key, what = "custom-array", "%s: custom radii array altered by get_radii" % clause
         else:
@@ -170,7 +217,7 @@ def run(tier):
     for r in recs[:2] + [x for x in recs if x["ev"] == "equiv"][:2]:
         run.sample(r)
     run.assume("documented tables = ase.data.covalent_radii and ase.data.vdw_alvarez.vdw_radii (the arrays the docs cite)",
-               "equivalence runs are skipped (and counted) when the code's own preset yields NaN for an atom")
+               "equivalence runs are skipped (and counted) when the documented preset has no value for an atom (plain vdw)")
     run.cov["rule"] = ("every (preset, Z<=103) resolved through the real get_radii twice (single / in array); random custom arrays; "
                        "random 3-11 atom structures with and without vdW-less elements for preset-vs-array equivalence; "
                        "non-trivial = distinct (preset,Z) pairs and distinct (structure,preset) equivalence runs")
